@@ -2,10 +2,7 @@ package calc_test
 
 // Deterministic reproductions of the C01 findings.  Each test FAILS while its finding reproduces.
 //
-//   - TestVerifC01KnownBlockStale is an open finding: it is not matched by the unit's run regex
-//     (^TestVerifC01History); the driver runs it by name ("confirm_test") while the finding is listed
-//     as open in KNOWN_FINDINGS.json.
-//   - TestVerifC01HistoryRegression* were findings that have been fixed in /repo (653e98a, 427948a);
+//   - TestVerifC01HistoryRegression* were findings that have been fixed in /repo (26b9688, 653e98a, 427948a);
 //     they are matched by the run regex and must pass: they are plain regression inputs.
 
 import (
@@ -70,12 +67,12 @@ func c01KnownRun(flushEach bool, steps ...api.Update) map[string]string {
 
 // Finding c01SigBlockStale.  Same final datastore state {pool, block 10.0.0.0/29 on rhost, local WEP
 // 10.0.0.1}; only the delivery order of block and WEP differs.
-func TestVerifC01KnownBlockStale(t *testing.T) {
+func TestVerifC01HistoryRegressionBlockStale(t *testing.T) {
 	ev.Quiet()
 	a := c01KnownRun(false, c01KnownPool(encap.Always), c01KnownBlock("10.0.0.0/29", c01Remote), c01KnownWEP("10.0.0.1", nil))
 	b := c01KnownRun(false, c01KnownPool(encap.Always), c01KnownWEP("10.0.0.1", nil), c01KnownBlock("10.0.0.0/29", c01Remote))
 	if d := dpmon.DiffSnapshots("block-then-WEP", a, "WEP-then-block", b); d != "" {
-		t.Fatalf("C01 finding %s reproduces: same datastore state, different delivery order, different routes:\n%s", c01SigBlockStale, d)
+		t.Fatalf("C01 violated (regression of fixed finding %s): same datastore state, different delivery order, different routes:\n%s", c01SigBlockStale, d)
 	}
 }
 
